@@ -139,6 +139,16 @@ def rebound_only_through_callee(p):
                         for m, dd in enumerate(p['nodes'], 1) if m < n)
             if early:
                 return 'nonlocal' if w else 'attribute'
+            # break / continue lowering does the same inside a loop body: what follows a statement that contains the jump
+            # is wrapped in a guard conditional, whose state tuple knows only what that guarded part assigns itself
+            loops = [q for k, sec, q in mpsig.path(p, n, par) if k in ('while', 'for')]
+            if loops:
+                inner = loops[-1]
+                jumped = any(dd['kind'] in ('break', 'continue') and m < n and
+                             [q for k, sec, q in mpsig.path(p, m, par) if k in ('while', 'for')][-1:] == [inner]
+                             for m, dd in enumerate(p['nodes'], 1))
+                if jumped:
+                    return 'nonlocal' if w else 'attribute'
     return None
 
 
